@@ -139,7 +139,7 @@ func HC13_Determinism() {
 	// registered filters (their table lists are maintained through map lookups)
 	m1, m2 := All(x1.id[uA]), All(x2.id[uA])
 	c1, c2 := x1.w.Cache().Register(&m1), x2.w.Cache().Register(&m2)
-	switch vChoice("scenario", 3) {
+	switch vChoice("scenario", 4) {
 	case 0:
 		pf := [6]int{3, 8, 1, 5, 7, 9}[vChoice("prefix", 3+3*vTier())]
 		x1.prefix(pf)
@@ -167,6 +167,29 @@ func HC13_Determinism() {
 			x.opNewEntityWith(A | B | 1<<uC)
 			x.opRemoveEntity(0) // the target dies: its empty tables are retired
 		}
+	case 3: // Reset over a registered filter that lists relation tables interleaved with surviving tables
+		A, B, C, R1 := uint8(1<<uA), uint8(1<<uB), uint8(1<<uC), uint8(1<<uR1)
+		for k, x := range [2]*hW{x1, x2} {
+			vMapOrderFixed(k == 0) // world 1 ranges over maps in insertion order, world 2 in every order
+			x.opNewEntity(0)
+			x.opNewEntity(0)
+			x.opNewEntity(0)
+			// table creation order R R P R P P: the order in which the relation tables leave the
+			// registered filter's list decides the order of the surviving ones
+			x.opBuilderNew(A|R1, uR1, true, x.h[0], false)
+			x.opBuilderNew(A|R1, uR1, true, x.h[1], false)
+			x.opNewEntityWith(A)
+			x.opBuilderNew(A|R1, uR1, true, x.h[2], false)
+			x.opNewEntityWith(A | B)
+			x.opNewEntityWith(A | C)
+			x.opReset()
+			x.opNewEntityWith(A | C)
+			x.opNewEntityWith(A)
+			x.opNewEntityWith(A | B)
+			x.opNewEntity(0)
+			x.opBuilderNew(A|R1, uR1, true, x.h[3], false)
+		}
+		vMapOrderFixed(false)
 	default: // several targets die in one batch call, their table slots are re-used afterwards
 		A, R1 := uint8(1<<uA), uint8(1<<uR1)
 		nt := 2 + vChoice("targets", 2)
